@@ -1155,6 +1155,14 @@ func c10Cases(tier string) []c10Case {
 			cs = append(cs, c)
 		}
 	}
+	// output length of a partial bootstrap: floor(frac*L) for every frac = k/100, k = 1..99, on L = 7, 10, 50, 100
+	// (products just below and just above an integer among them), with the seeded generator
+	for _, L := range []int{7, 10, 50, 100} {
+		seqs := c10Coded(2, L, nt)
+		for k := 1; k <= 99; k++ {
+			cs = append(cs, c10Case{Op: "bootstrap", Seqs: seqs, Alpha: nt, F1: float64(k) / 100, Seed: 1, Mode: "seed"})
+		}
+	}
 	// seed replay in pass-through mode
 	for _, seed := range []int64{0, 1, 42} {
 		seqs := c10Coded(3, 3, nt)
@@ -1184,7 +1192,7 @@ func init() {
 		ID:    "C10",
 		Level: "model_checking",
 		Rule: "for each randomised operation (ShuffleSequences, ShuffleSites, Swap, SimulateRogue, BuildBootstrap (also block-wise followed by Concat, as build seqboot --partition does; also a second replicate drawn after the alignment was lower-cased in place), Sample, SampleSeqBag, RandSubAlign, Recombine, AddGaps, Mutate, Rarefy) on position-coded alignments of every shape n<=3 x L<=3 (4x4 for the support-checked operations in thorough; Swap of two pairs of rows on 4x3, 4x4, 5x3) and on all alignments n<=2,L<=2 over {A,C,-} for the content-sensitive ones, with all listed parameter values: EVERY sequence of RNG answers (rand.Intn: all n values; rand.Perm: all n! orders; rand.Float64: representatives on both sides of and at every threshold the code compares with) is executed; states/transitions are nodes/edges of the RNG choice trees; " +
-			"per leaf the operation's invariant, per tree reached-outcome set == admissible set where the statement pins the support down (row shuffle, bootstrap, sampling, site sampling, full site shuffle, substituted letters at rate 1); SampleSeqBag also on plain sequence sets of 2..3 (thorough 4) sequences of pairwise different lengths, longest first and shortest first; RandSubAlign (window and scattered, 1024 and all of 1100 columns), BuildBootstrap, Sample / SampleSeqBag (60 rows) and ShuffleSequences on a 64x1100 alignment with pairwise distinct columns (samples of at least 65536 cells) with GOMAXPROCS 2 and 4 under the controlled scheduler (one preemption, no data race, same sample under every interleaving) and the sample judged (original columns taken for all rows, distinct, contiguous for a window; original rows); seed replay with the real stream for seeds 0,1,42 twice and under map-order choices, on 3x3 and (for operations reporting name lists or pairing rows) 4x4 alignments. distinct_nontrivial = distinct (case, answer sequence) leaves whose invariant was checked.",
+			"per leaf the operation's invariant, per tree reached-outcome set == admissible set where the statement pins the support down (row shuffle, bootstrap, sampling, site sampling, full site shuffle, substituted letters at rate 1); SampleSeqBag also on plain sequence sets of 2..3 (thorough 4) sequences of pairwise different lengths, longest first and shortest first; RandSubAlign (window and scattered, 1024 and all of 1100 columns), BuildBootstrap, Sample / SampleSeqBag (60 rows) and ShuffleSequences on a 64x1100 alignment with pairwise distinct columns (samples of at least 65536 cells) with GOMAXPROCS 2 and 4 under the controlled scheduler (one preemption, no data race, same sample under every interleaving) and the sample judged (original columns taken for all rows, distinct, contiguous for a window; original rows); BuildBootstrap with every fraction k/100 on L = 7, 10, 50, 100 (output length floor(frac*L) as the product is computed in double precision, columns original); seed replay with the real stream for seeds 0,1,42 twice and under map-order choices, on 3x3 and (for operations reporting name lists or pairing rows) 4x4 alignments. distinct_nontrivial = distinct (case, answer sequence) leaves whose invariant was checked.",
 		Assumptions: []string{
 			"rand.Intn(n) can return every value of [0,n) and rand.Perm every permutation (positive probability is decided as reachability over RNG answers)",
 			"rand.Float64 answers are representatives: below, at and above each comparison threshold of the operation",
